@@ -34,6 +34,7 @@ THEOREMS = [
     "C19_flock_mutex", "C19_flock_same_inode", "C19_flock_death", "C19_flock_timeout", "C19_flock_ok_only_when_free",
     "C19_s3_takeover_after_lease", "C19_s3_superseded", "C19_s3_is_held_sound", "C19_s3_timeout",
     "C19_s3_ok_only_when_unowned", "C19_s3_mutex_partial", "C19_s3_mutex_refuted",
+    "C19_s3_mutex_gap_hypothesis_insufficient", "C19_s3_mutex_conditional_delete",
 ]
 REQ = ["DS.Model.FLock", "DS.Model.Lock", "DS.Gen.GenLockConst"]
 KNOWN_KEY = "s3-release-get-then-unconditional-delete-after-takeover"
@@ -107,7 +108,7 @@ def flock_expr(events: List[List[Any]], clients: List[int]) -> str:
 def s3_expr(events: List[List[Any]], clients: List[int], lease_ms: int) -> str:
     evs = "[" + "; ".join(s3_event_coq(e) for e in events) + "]"
     cs = "[" + "; ".join(n_(c) for c in clients) + "]"
-    return f"ssummary {z(lease_ms)} (srun {z(lease_ms)} held_retry_sleep_ms sinit {evs}) {cs}"
+    return f"ssummary {z(lease_ms)} (srun false {z(lease_ms)} held_retry_sleep_ms sinit {evs}) {cs}"
 
 
 def _name(x: Any) -> str:
@@ -725,6 +726,97 @@ def stress_real(ctx) -> None:
     ctx.stats["real_stress"] = st
 
 
+class _RealTimeS3:
+    """Wall-clock fake of the one lock object, for the real heartbeat thread (no scheduler, no patches)."""
+
+    def __init__(self) -> None:
+        import threading
+        self.o: Optional[Dict[str, Any]] = None
+        self.n = 0
+        self.mu = threading.Lock()
+        self.puts: List[Tuple[float, str, str]] = []
+
+    @staticmethod
+    def _err(code: str, op: str):
+        from botocore.exceptions import ClientError
+        return ClientError({"Error": {"Code": code, "Message": code}}, op)
+
+    def put_object(self, Bucket, Key, Body, IfNoneMatch=None, IfMatch=None):
+        import datetime as dt
+        with self.mu:
+            if IfNoneMatch and self.o is not None:
+                raise self._err("PreconditionFailed", "PutObject")
+            if IfMatch is not None and (self.o is None or self.o["etag"] != IfMatch):
+                raise self._err("PreconditionFailed", "PutObject")
+            self.n += 1
+            self.o = {"body": bytes(Body), "etag": f'"{self.n}"', "lm": dt.datetime.now(dt.timezone.utc)}
+            self.puts.append((time.time(), "cond" if (IfMatch or IfNoneMatch) else "plain", Body.decode()))
+            return {"ETag": self.o["etag"]}
+
+    def head_object(self, Bucket, Key):
+        with self.mu:
+            if self.o is None:
+                raise self._err("404", "HeadObject")
+            return {"LastModified": self.o["lm"], "ETag": self.o["etag"]}
+
+    def get_object(self, Bucket, Key):
+        import io
+        with self.mu:
+            if self.o is None:
+                raise self._err("NoSuchKey", "GetObject")
+            return {"Body": io.BytesIO(self.o["body"])}
+
+    def delete_object(self, Bucket, Key):
+        with self.mu:
+            self.o = None
+        return {}
+
+
+def heartbeat_real(ctx) -> None:
+    """The scheduler runs replace the heartbeat THREAD by renew events; here the real thread runs against
+    the wall clock: it must keep a live holder's lease fresh (a contender times out instead of taking over),
+    and must drop is_locked once its renewal is refused."""
+    import logging
+    from datashard.lock_provider import S3LockProvider
+    logging.disable(logging.CRITICAL)
+    s3 = _RealTimeS3()
+    lease = 1.5          # renew every 0.5 s: one second of slack for a loaded machine
+    a = S3LockProvider(s3, "b", "k", timeout=1.0, lease_seconds=lease)
+    b = S3LockProvider(s3, "b", "k", timeout=2.5, lease_seconds=lease)
+    st: Dict[str, Any] = {}
+    a.acquire()
+    t0 = time.time()
+    try:
+        got = b.acquire()
+        st["contender"] = "acquired"
+        ctx.violation("s3-heartbeat-live-holder-taken-over", "a contender took over a lock whose holder's heartbeat thread was running "
+                      f"(lease {lease}s, renew every {lease / 3:.2f}s)", {"lock": "heartbeat", "puts": [list(p) for p in s3.puts]})
+        b.release()
+    except TimeoutError:
+        st["contender"] = f"TimeoutError after {time.time() - t0:.2f}s"
+    renewals = sum(1 for p in s3.puts if p[2] == a.lock_id) - 1
+    st["renewals_by_holder"] = renewals
+    if renewals < 3:
+        ctx.violation("s3-heartbeat-not-renewing", f"{renewals} renewals in {time.time() - t0:.2f}s with lease {lease}s",
+                      {"lock": "heartbeat", "puts": [list(p) for p in s3.puts]})
+    # theft: somebody else's conditional write replaces the object; the next renewal must be refused
+    with s3.mu:
+        s3.n += 1
+        s3.o = {"body": b"intruder", "etag": f'"{s3.n}"', "lm": s3.o["lm"]}
+    t1 = time.time()
+    while a.is_locked and time.time() - t1 < 4.0:
+        time.sleep(0.02)
+    st["holder_noticed_theft_after_s"] = round(time.time() - t1, 3)
+    if a.is_locked:
+        ctx.violation("s3-heartbeat-theft-unnoticed", "is_locked still True 4 s after the object was replaced (renew interval 0.5 s)",
+                      {"lock": "heartbeat"})
+    if a.is_held():
+        ctx.violation("s3-superseded-holder-reports-held", "is_held() True after the object was replaced", {"lock": "heartbeat"})
+    a._stop_heartbeat_thread()
+    ctx.count(3)
+    ctx.stats["real_heartbeat"] = st
+
+
 # ---------------------------------------------------------------------------------- driver
 def run(ctx) -> None:
     ctx.rule = ("schedules = event lists over {call, step, renew, tick, die, fault}; every schedule is executed on the real class "
@@ -753,6 +845,7 @@ def run(ctx) -> None:
     check_flock(ctx)
     check_s3(ctx)
     stress_real(ctx)
+    heartbeat_real(ctx)
 
 
 def replay(ctx, payload) -> int:
